@@ -45,7 +45,7 @@ func init() {
 					u = append(u, fmt.Sprintf("sign#k%d#i%d", k, i))
 				}
 			}
-			return append(u, "openssl", "zones")
+			return append(u, "openssl", "zones", "oids")
 		},
 		Run:    c05Run,
 		Budget: dur(5*time.Minute, 40*time.Minute),
@@ -135,6 +135,47 @@ func c05Types() []c05Type {
 		// so the DER SET OF order differs from the order the signer writes them in
 		{"1.2.2147483647.2147483647.2147483647", encasn1.ObjectIdentifier{1, 2, 2147483647, 2147483647, 2147483647}, der.OID(1, 2, 2147483647, 2147483647, 2147483647)},
 	}
+}
+
+// c05OIDFamily: content-type OIDs under every root (0.x, 1.x, 2.x with a second arc below and
+// above 39, which only root 2 allows), with DER sizes 3..18 octets (the order of the signed
+// attributes depends on the size) and zero, one or two zero arcs inside.
+func c05OIDFamily() []c05Type {
+	var out []c05Type
+	roots := [][2]int{{0, 9}, {1, 2}, {1, 39}, {2, 5}, {2, 40}, {2, 999}}
+	for _, r := range roots {
+		first := 1
+		if 40*r[0]+r[1] >= 128 {
+			first = 2
+		}
+		for size := 3; size <= 18; size++ {
+			for zeros := 0; zeros <= 2; zeros++ {
+				k := size - first
+				if k < zeros+1 {
+					continue
+				}
+				arcs := []int{r[0], r[1]}
+				for i := 0; i < k; i++ {
+					a := 1 + (i*7+size)%120
+					if i >= 1 && i <= zeros {
+						a = 0
+					}
+					arcs = append(arcs, a)
+				}
+				u := make([]uint64, len(arcs))
+				name := ""
+				for i, a := range arcs {
+					u[i] = uint64(a)
+					if i > 0 {
+						name += "."
+					}
+					name += strconv.Itoa(a)
+				}
+				out = append(out, c05Type{name, encasn1.ObjectIdentifier(arcs), der.OID(u...)})
+			}
+		}
+	}
+	return out
 }
 
 var c05Lens = []int{0, 1, 2, 55, 56, 63, 64, 65, 127, 128, 129, 255, 256, 257, 65535, 65536}
@@ -387,6 +428,18 @@ func c05Run(c *hx.Ctx, tier, unit string) {
 					c.Tick()
 					c05Check(c, 1, cert, ty, c05Content(n, true), sess, fmt.Sprintf("openssl issuer=%s serial=%s len=%d", iss.name, serial.Text(16), n))
 				}
+			}
+		}
+		return
+	}
+	if parts[0] == "oids" {
+		cert := keys.C(1)
+		for _, ty := range c05OIDFamily() {
+			for _, n := range []int{0, 64} {
+				if !c.Next() {
+					continue
+				}
+				c05Check(c, 1, cert, ty, c05Content(n, false), nil, fmt.Sprintf("type=%s len=%d", ty.name, n))
 			}
 		}
 		return
